@@ -10,10 +10,12 @@
    attributes of every object held).  (II) the value-level statements kept from before: the value computed by shift/pad does
    not depend on working in place or on a copy, copying is the identity, a context manager answers every call of any history
    as a fresh one does (true by construction of the functional model: ContextManager methods assign nothing).
-   Still partial by nature above the Buffer class: that rules, contexts, descriptors and module-level tables of the real
-   Python process are untouched is established by the harness (snapshots, long-lived against fresh objects), see DESIGN.md. *)
+   (I b, I c) the same for compress, decompress with its compute stage, field matching, rule-id dispatch, the parsers of all seven
+   configurations, the context manager and the front end, written over references into the same heap.
+   Still partial by nature above the Buffer objects: that the Python lists and records of rules, contexts and descriptors and the
+   module-level tables of the real process are untouched is established by the harness (snapshots, long-lived against fresh objects). *)
 From Coq Require Import ZArith List Bool.
-From MS Require Import PyBase Buffer Bits ByteFacts BufferAbs BufferSpec Schc SchcBytes Effects BufferHeap BufferHeapSpec SchcHeap.
+From MS Require Import PyBase Buffer Bits ByteFacts BufferAbs BufferSpec Schc SchcBytes ParserBytes ComputeBytes ManagerBytes Effects BufferHeap BufferHeapSpec SchcHeap ParserHeap ManagerHeap ComputeHeap.
 Import ListNotations.
 Open Scope Z_scope.
 
@@ -102,6 +104,72 @@ Proof. exact (h_field_match_refines pf rf h bpf brf). Qed.
 Theorem c16_match_schc_packet_frame rules s h res h' : h_match_schc_packet rules s h = (res, h') -> extends h h'.
 Proof. exact (h_match_schc_packet_frame rules s h res h'). Qed.
 
+(* ---- (I c) parsing, the context manager, the front end and the compute stage of decompress on the objects of the heap
+   (ParserHeap.v, ManagerHeap.v, ComputeHeap.v): the packet Buffer, the SCHC packet Buffer and every Buffer of every rule are objects
+   the caller shares.  For every heap, every input and every outcome only new objects are appended; what is returned is new (fields,
+   payload and raw of a parse are pairwise distinct new objects, never the packet itself; the front end alone may hand the caller's own
+   packet back, when no context accepts it: `return packet`); and the outcome is the one of the byte-level functions of ParserBytes /
+   ManagerBytes / ComputeBytes on the dereferenced inputs. *)
+Theorem c16_parse_frame s b h res h' : h_factory s b h = (res, h') -> extends h h'.
+Proof. exact (h_factory_frame s b h res h'). Qed.
+Theorem c16_parse_fresh s b h fs pl raw h' : h_factory s b h = (Ok (fs, pl, raw), h') ->
+  let l := raw :: map of_val fs ++ [pl] in
+  sorted_in (length h) l (length h') /\ NoDup l /\ Forall (fun x => (length h <= x < length h')%nat) l /\
+  (b < length h)%nat /\ ~ In b l.
+Proof. exact (h_factory_fresh s b h fs pl raw h'). Qed.
+Theorem c16_parse_refines s b h bb : nth_error h b = Some bb ->
+  match h_factory s b h with
+  | (Ok (fs, pl, raw), h') =>
+    exists bfs plb rawb, bfactory s bb = Ok (bfs, plb) /\ deref_list (deref_field h') fs = Some bfs /\
+                         nth_error h' pl = Some plb /\ b_copy bb = Ok rawb /\ nth_error h' raw = Some rawb
+  | (Exc e, _) => bfactory s bb = Exc e
+  | (Diverge, _) => bfactory s bb = Diverge
+  end.
+Proof. exact (h_factory_refines s b h bb). Qed.
+Theorem c16_manager_compress_frame s rules packet d st h res h' : h_cm_compress s rules packet d st h = (res, h') -> extends h h'.
+Proof. exact (h_cm_compress_frame s rules packet d st h res h'). Qed.
+Theorem c16_manager_compress_fresh s rules packet d st h x h' : h_cm_compress s rules packet d st h = (Ok x, h') -> (length h <= x < length h')%nat.
+Proof. exact (h_cm_compress_fresh s rules packet d st h x h'). Qed.
+Theorem c16_manager_compress_refines s rules packet d st h brules pb :
+  deref_list (deref_rule h) rules = Some brules -> nth_error h packet = Some pb ->
+  match h_cm_compress s rules packet d st h with
+  | (Ok x, h') => exists v, bcm_compress (bfactory s) brules pb d st = Ok v /\ nth_error h' x = Some v
+  | (Exc e, _) => bcm_compress (bfactory s) brules pb d st = Exc e
+  | (Diverge, _) => bcm_compress (bfactory s) brules pb d st = Diverge
+  end.
+Proof. exact (h_cm_compress_refines s rules packet d st h brules pb). Qed.
+Theorem c16_decompress_compute_frame s r d h res h' : h_decompress_c s r d h = (res, h') -> extends h h'.
+Proof. exact (h_decompress_c_frame s r d h res h'). Qed.
+Theorem c16_decompress_compute_fresh s r d h x h' : h_decompress_c s r d h = (Ok x, h') -> (length h <= x < length h')%nat.
+Proof. exact (h_decompress_c_fresh s r d h x h'). Qed.
+Theorem c16_decompress_compute_refines s r d h sb br : nth_error h s = Some sb -> deref_rule h r = Some br ->
+  match h_decompress_c s r d h with
+  | (Ok x, h') => exists v, bdecompress_c sb br d = Ok v /\ nth_error h' x = Some v
+  | (Exc e, _) => bdecompress_c sb br d = Exc e
+  | (Diverge, _) => bdecompress_c sb br d = Diverge
+  end.
+Proof. exact (h_decompress_c_refines s r d h sb br). Qed.
+Theorem c16_manager_decompress_frame rules s d h res h' : h_cm_decompress rules s d h = (res, h') -> extends h h'.
+Proof. exact (h_cm_decompress_c_frame rules s d h res h'). Qed.
+Theorem c16_manager_decompress_fresh rules s d h x h' : h_cm_decompress rules s d h = (Ok x, h') -> (length h <= x < length h')%nat.
+Proof. exact (h_cm_decompress_c_fresh rules s d h x h'). Qed.
+Theorem c16_manager_decompress_refines rules s d h brules sb :
+  deref_list (deref_rule h) rules = Some brules -> nth_error h s = Some sb ->
+  match h_cm_decompress rules s d h with
+  | (Ok x, h') => exists v, bcm_decompress brules sb d = Ok v /\ nth_error h' x = Some v
+  | (Exc e, _) => bcm_decompress brules sb d = Exc e
+  | (Diverge, _) => bcm_decompress brules sb d = Diverge
+  end.
+Proof. exact (h_cm_decompress_c_refines rules s d h brules sb). Qed.
+Theorem c16_front_compress_frame ctxs packet h res h' : h_schc_compress ctxs packet h = (res, h') -> extends h h'.
+Proof. exact (h_schc_compress_frame ctxs packet h res h'). Qed.
+Theorem c16_front_compress_result packet ctxs h x h' : h_schc_compress ctxs packet h = (Ok x, h') -> x = packet \/ (length h <= x < length h')%nat.
+Proof. exact (h_schc_compress_result packet ctxs h x h'). Qed.
+Theorem c16_front_decompress_frame ctxs packet h res h' : h_schc_decompress ctxs packet h = (res, h') -> extends h h'.
+Proof. exact (h_schc_decompress_c_frame ctxs packet h res h'). Qed.
+Theorem c16_front_decompress_result packet ctxs h x h' : h_schc_decompress ctxs packet h = (Ok x, h') -> x = packet \/ (length h <= x < length h')%nat.
+Proof. exact (h_schc_decompress_c_result packet ctxs h x h'). Qed.
+
 (* ---- (II) values ------------------------------------------------------------------------------- *)
 Theorem c16_shift_inplace_irrelevant b s : canon b -> b_shift b s true = b_shift b s false.
 Proof. exact (shift_inplace_irrelevant b s). Qed.
@@ -143,6 +211,22 @@ Print Assumptions c16_decompress_refines.
 Print Assumptions c16_field_match_frame.
 Print Assumptions c16_field_match_refines.
 Print Assumptions c16_match_schc_packet_frame.
+Print Assumptions c16_parse_frame.
+Print Assumptions c16_parse_fresh.
+Print Assumptions c16_parse_refines.
+Print Assumptions c16_manager_compress_frame.
+Print Assumptions c16_manager_compress_fresh.
+Print Assumptions c16_manager_compress_refines.
+Print Assumptions c16_decompress_compute_frame.
+Print Assumptions c16_decompress_compute_fresh.
+Print Assumptions c16_decompress_compute_refines.
+Print Assumptions c16_manager_decompress_frame.
+Print Assumptions c16_manager_decompress_fresh.
+Print Assumptions c16_manager_decompress_refines.
+Print Assumptions c16_front_compress_frame.
+Print Assumptions c16_front_compress_result.
+Print Assumptions c16_front_decompress_frame.
+Print Assumptions c16_front_decompress_result.
 Print Assumptions c16_shift_inplace_irrelevant.
 Print Assumptions c16_pad_inplace_irrelevant.
 Print Assumptions c16_copy_identity.
